@@ -643,7 +643,9 @@ pub fn sessions(sink: &mut Sink, seed: u64, thorough: bool, alphabet: &str, beha
         let spec = BuildSpec { input: payload(&mut r2, 2, 14, true), ecl: Some(2), mode: None, version: Some(2), mask: m0, grp: 0, tag: String::new(), lite: false };
         match run_build(&spec) { Outcome::Ok(q) if qr_modules(&q) != qr_modules(&q0) => *q, _ => qr_of(2, seed + 1) }
     };
-    let qrs = [q0, q1, qr_of(5, seed)];
+    // ... and 24 more small ones for the long sessions (a cache with a capacity only fills up when one builder sees many different symbols)
+    let mut qrs = vec![q0, q1, qr_of(5, seed)];
+    for k in 0..24u64 { qrs.push(qr_of(1, seed + 100 + k)); }
     // segments: calls, then a rendering of qrs[k]
     let mut plans: Vec<Vec<(Vec<Call>, usize)>> = Vec::new();
     for a in &alpha { for b in &alpha {
@@ -659,6 +661,14 @@ pub fn sessions(sink: &mut Sink, seed: u64, thorough: bool, alphabet: &str, beha
         plans.push(vec![(img(vec![Call::Margin(m2)]), 2), (vec![Call::Margin(m1)], 0), (vec![], 1), (vec![Call::Margin(m2)], 2)]);
     } }
     for sh in 0..6usize { plans.push(vec![(vec![Call::Shape(sh)], 0), (vec![], 1), (vec![], 0), (vec![], 1)]); }
+    // long sessions: one builder, no setter, 24 different symbols one after the other, then earlier ones again (the one before the last first)
+    for (li, first) in [vec![Call::Margin(1)], vec![Call::Shape(1), Call::Image("logo.png".into())], vec![]].into_iter().enumerate() {
+        if !thorough && li == 2 { continue; }
+        let mut plan: Vec<(Vec<Call>, usize)> = vec![(first, 3)];
+        for k in 4..27usize { plan.push((vec![], k)); }
+        for k in [25usize, 26, 25, 3, 10, 26, 9, 8, 24, 3] { plan.push((vec![], k)); }
+        plans.push(plan);
+    }
     for k in 0..(if thorough { 12 } else { 3 }) {
         plans.push((0..9).map(|i| (if (i + k) % 3 == 0 { vec![alpha[(i * 7 + k) % alpha.len()].clone()] } else { vec![] }, i % 3)).collect());     // nine renderings of one builder
     }
@@ -718,6 +728,8 @@ pub fn sessions(sink: &mut Sink, seed: u64, thorough: bool, alphabet: &str, beha
             if si == 0 && pi % 3 == 0 { calls.push(Call::Image("logo.png".into())); }
             (calls, r.gen_range(0..2))
         }).collect();
+        // the first raster session is a long one: 24 different symbols through one builder, then earlier ones again
+        let plan: Vec<(Vec<Call>, usize)> = if pi == 0 { let mut p: Vec<(Vec<Call>, usize)> = vec![(vec![Call::Margin(1), Call::FitWidth(92)], 3)]; for k in 4..27usize { p.push((vec![], k)); } for k in [25usize, 26, 25, 3, 10] { p.push((vec![], k)); } p } else { plan };
         let qrs2 = qrs.clone();
         let res = guarded(300, move || {
             let mut b = ImageBuilder::default();
